@@ -228,16 +228,30 @@ func originClass(origin, reqHost string, dev bool) string {
 		if port != "" {
 			full += ":" + port
 		}
+		_, reqPort := splitHostPort(reqHost)
 		switch {
 		case scheme == "chrome-extension":
 			return "exception"
+		case strings.Contains(strings.ToLower(scheme), "extension"):
+			return "unclear" // "browser-extension scheme": only chrome-extension (lower case) is documented by name
 		case full == reqHost && reqHost != "":
 			return "same"
 		case dev && (host == "127.0.0.1" || host == "localhost"):
 			return "exception"
-		case strings.EqualFold(host, hHost) || strings.EqualFold(host, reqHost):
-			return "unclear" // same name, different/missing port: the documentation leaves this open
-		case strings.Contains(lo, "chrome-extension"):
+		case host == hHost && hHost != "" && !strings.HasPrefix(host, "["):
+			// Same host name, but host:port differs from the Host header.
+			if reqPort == "" && port != "" {
+				// documented: "Origin (without port) matches Host" — a Host header without a
+				// port is matched by the Origin's host name alone
+				return "same"
+			}
+			// The Host header carries a port and the Origin names another one or none:
+			// the Origin does not match the Host (documented: "If the Host header has a
+			// port, and the Origin does not, requests will also end up here").
+			return "foreign"
+		case strings.EqualFold(strings.TrimSuffix(host, "."), hHost) || strings.EqualFold(host, reqHost):
+			// same name up to letter case, a trailing dot or IPv6 brackets: the
+			// documentation does not say how names are normalised
 			return "unclear"
 		default:
 			return "foreign"
